@@ -511,6 +511,10 @@ def call_builtin_class(ip, f, args, kw):
         raise Unsupported('struct.Struct() inside function')
     if f is dict:
         raise Unsupported('dict()')
+    from . import extworld
+    r = extworld.call(ip, f, args, kw)
+    if r is not extworld.NOT_HANDLED:
+        return r
     raise Unsupported('constructor %s' % getattr(f, '__name__', f))
 
 
